@@ -3,21 +3,6 @@
 From V Require Import Model.C18_Table Model.C18_Exempt Gen.Locksets.
 From Coq Require Import Lia.
 
-(* ---------- what the boolean forms mean ---------- *)
-Definition exempt (ex : list exemption) (a : access) : Prop := exists e, In e ex /\ fst e = a_fn a.
-Definition written (ex : list exemption) (accs : list access) (a : access) : Prop :=
-  exists b, In b accs /\ same_loc a b = true /\ a_kind b <> KRd /\ ~ exempt ex b.
-Definition holds_guard (a : access) (need_excl : bool) : Prop :=
-  exists g l, guard_of (a_ty a) (a_field a) = Some g /\ In l (a_locks a) /\ l_name l = g /\ (need_excl = true -> l_excl l = true).
-
-(* the premise of lockset_drf, for one entry: a write holds the designated guard exclusively, a read of a
-   location that anything writes holds it at least shared; the walk followed the function; nothing escapes *)
-Definition access_ok (ex : list exemption) (accs : list access) (a : access) : Prop :=
-  exempt ex a \/
-  (a_unknown a = false /\ a_kind a <> KEsc /\
-   (a_kind a = KWr -> holds_guard a true) /\
-   (a_kind a = KRd -> written ex accs a -> holds_guard a false)).
-
 Lemma exemptb_spec ex a : exemptb ex a = true <-> exempt ex a.
 Proof.
   unfold exemptb, exempt. rewrite existsb_exists. split; intros [e [H1 H2]]; exists e; split; auto.
